@@ -72,6 +72,8 @@ MENU = [
     # remove at the end of a NESTED row / field / dict entry (the flat form is above)
     ("remove m[1][-1]", "mut", "m", [1]), ("remove q[fld][-1]", "mut", "q", ["f0"]), ("remove q::fld[-1]", "mut", "q", ["f0"]), ("remove e[1][-1]", "mut", "e", ["k0"]),
     ("remove g[1][-1]", "mut", "g", ["k0"]),
+    # dict merge that concatenates the rows of common keys: the row is extended in place
+    ("g ||++= {1: [5]}", "mut", "g", ["k0"]), ("e ||++= {1: [5]}", "mut", "e", ["k0"]), ("g ||++= {2: [5], 3: [6]}", "mut", "g", ["k1"]),
     ("swap a[0], a[1]", "mut", "a", []), ("swap m[1][0], m[1][1]", "mut", "m", [1]), ("a[0], a[1] = 1, 2", "mut", "a", []),
     ("b[0] = 1", "mut", "b", []), ("b[1][1] = 1", "mut", "b", [1]), ("c[0][0] = 1", "mut", "c", [0]), ("b[fld][0] = 1", "mut", "b", ["f0"]),
     ("b = a", "share", None, None), ("b = m", "share", None, None), ("b = m[1]", "share", None, None), ("b = d", "share", None, None),
@@ -84,7 +86,15 @@ def starts(tier):
     return ["big"]
 
 
+# statements whose kind is also exercised by a scaling loop (both tiers): in the quick tier they are left out of the search menu
+QUICK_SEARCH_SKIP = {"remove q::fld[-1]", "remove e[1][-1]", "remove g[1][-1]", "remove q[fld][-1]", "d |..= [8, 9]", "d -.= 5", "d ||= {7: 7}",
+                     "swap m[1][0], m[1][1]", "a[0], a[1] = 1, 2", "e ||++= {1: [5]}", "g ||++= {2: [5], 3: [6]}", "q::fld ++= [1]", "q::fld[3] += 1",
+                     "v ++= w2", "y ++= w3", "t ++= w", "e[1] ++= w", "a append= w", "t ++= [1]", "t[6] += 1", "e[1][3] += 1", "g[2] append= 1"}
+
+
 def alphabet(tier, start):
+    if tier == "quick":
+        return [i for i, st in enumerate(MENU) if st[0] not in QUICK_SEARCH_SKIP]
     return list(range(len(MENU)))
 
 
@@ -263,6 +273,9 @@ LOOPS = [
     ("row-remove-end", "x := [[], list(1 to {n})]", "for (i <- 1 to {k}) remove x[1][-1]"),
     ("row-pop", "x := [[], list(1 to {n})]", "for (i <- 1 to {k}) pop x[1]"),
     ("struct-field-remove-end", "struct Foo (fld, num); x := Foo(list(1 to {n}), 0)", "for (i <- 1 to {k}) remove x[fld][-1]"),
+    ("dict-merge-concat", "x := {{0: list(1 to {n}), 1: []}}", "for (i <- 1 to {k}) x ||++= {{0: [i]}}"),
+    ("dict-merge-concat-two", "x := {{0: list(1 to {n}), 1: list(1 to {n})}}", "for (i <- 1 to {k}) x ||++= {{(i % 2): [i]}}"),
+    ("dict-merge-add", "x := dict((0 til {n}) map (\\i -> [i, i]))", "for (i <- 0 til {k}) x ||+= {{(i % {n}): 1}}"),
     ("dict-entry-remove-end", "x := {{1: list(1 to {n})}}", "for (i <- 1 to {k}) remove x[1][-1]"),
     ("vector", "x := vector(list(1 to {n}))", "for (i <- 0 til {k}) x[i % {n}] = i"),
     ("bytes", "x := bytes((1 to {n}) map (% 256))", "for (i <- 0 til {k}) x[i % {n}] = i % 256"),
@@ -293,7 +306,7 @@ def loop_src(body, n, k, alias):
 
 
 def cases(tier):
-    base = 1000
+    base = 1000 if tier != "quick" else 500      # three sizes base, 2*base, 4*base: growth per doubling is what is judged
     loops = LOOPS
     for (lname, setup, body) in loops:
         for alias in ALIASING:
@@ -336,5 +349,5 @@ def nontrivial(case, rs):
 
 def bounds(tier):
     return {"search_depth": depth(tier), "payload_elements": N, "big_alloc_threshold_bytes": THRESH, "menu": [m[0] for m in MENU],
-            "scaling_loops": [l[0] for l in (LOOPS if tier != "quick" else LOOPS[::2])], "scaling_sizes": [1000, 2000, 4000],
+            "scaling_loops": [l[0] for l in LOOPS], "search_statements": len(alphabet(tier, None)), "scaling_sizes": [1000, 2000, 4000] if tier != "quick" else [500, 1000, 2000],
             "aliasing_patterns": [a[0] for a in ALIASING]}
